@@ -300,8 +300,8 @@ type c04CLISpec struct {
 }
 
 var c04CLIDocs = []string{`[{"id":1},{"id":2},{"id":3}]`, `[{"id":1}]`, `{"id":1}`, `[[1],[2]]`,
-	// what the binary writes is the JSON text, byte for byte: nothing in it is a directive
-	`[{"50%":"100% %s %d %v %%"},{"id":"a%20b"}]`, `{"k":"\\u003cb\\u003e <&> \u2028 \\n %!(EXTRA"}`}
+						// what the binary writes is the JSON text, byte for byte: nothing in it is a directive
+						`[{"50%":"100% %s %d %v %%"},{"id":"a%20b"}]`, `{"k":"\\u003cb\\u003e <&> \u2028 \\n %!(EXTRA"}`}
 var c04CLIElems = []int{3, 1, 1, 2, 2, 1} // elements (array) or 1 (object) of each document
 
 var c04CLIBad = []string{`$`, `/x/`, `num("inf")`, `-num("inf")`, `[$]`, `{k: [1, $]}`}
